@@ -136,7 +136,8 @@ func fsNorm(v driver.Value) driver.Value {
 		}
 		return int64(0)
 	case time.Time:
-		return v.UTC().Format("2006-01-02 15:04:05.999999999")
+		// the MySQL driver sends microseconds and cuts off the rest
+		return v.UTC().Format("2006-01-02 15:04:05.999999")
 	case int:
 		return int64(v)
 	}
